@@ -456,6 +456,31 @@ def large_oracle(case):
     check_invalid(g, case)
     check_mixed(g, case, [cells[-1], -1, cells[0], n, cells[len(cells) // 2],
                           n + 2**31, -2**31, 2**62])
+    # one call on several hundred thousand points (every cell of a
+    # 500x600 block, then points outside the extent)
+    if n >= 300_000:
+        blk = (np.arange(500, dtype=np.int64)[:, None] * nc
+               + np.arange(600, dtype=np.int64)[None, :]).ravel() \
+            if nc >= 600 and nr >= 500 else np.arange(300_000,
+                                                      dtype=np.int64)
+        xyb = g.cell2coord(blk)
+        backb = g.coord2cell(xyb)
+        if not np.array_equal(backb, blk):
+            i = int(np.argmax(backb != blk))
+            raise Violation(
+                f"coord2cell(cell2coord(c)) on {len(blk)} cells in one call:"
+                f" cell {blk[i]} (position {i}) -> {backb[i]}")
+        rcb = g.cell2rowcol(blk)
+        if not np.array_equal(rcb[:, 0] * nc + rcb[:, 1], blk):
+            raise Violation(f"cell2rowcol on {len(blk)} cells in one call "
+                            "disagrees with the numbering")
+        out = xyb.copy()
+        out[:, 0] = case["xll"] - (1 + np.arange(len(blk)) % 7) * case["csz"]
+        oc = g.coord2cell(out)
+        if not np.all(oc == -1):
+            i = int(np.argmax(oc != -1))
+            raise Violation(f"{len(blk)} points left of the extent in one "
+                            f"call: position {i} -> cell {oc[i]}")
     yv, xv = g.yvalues, g.xvalues
     if len(yv) != nr or len(xv) != nc:
         raise Violation(f"xvalues/yvalues lengths {len(xv)}, {len(yv)}")
